@@ -411,6 +411,9 @@ class Run:
             return self.content(v)
         if ty.kind == "vmap" and v.t.kind == "dict":
             return self.content(v)
+        if ty.kind == "opaque" and ty.name in self.ctx.c.config.get("opaque_absorbs", ()) and not v.is_const and not v.t.heap:
+            # an opaque type declared to stand for "any python value": other data values enter it through an uninterpreted injection
+            return self.ctx.uf_apply(self, "as_%s_from_%s" % (ty.name, v.t.kind), [v], ty)
         raise EngineError("cannot coerce %s to %s" % (v.t, ty))
 
     def can_inject(self, a, b):
